@@ -196,6 +196,25 @@ class PolyCtx:
                 if sz is not None:
                     root, off = self.ptr(d.ops[0], depth + 1)
                     return root, off + self.val(d.ops[1], depth + 1) * sz
+            if d.op == 'call' and (d.callee or '').startswith('@') and depth < 8:
+                # a pointer accessor (`get_matrix_row(m, r, cols)` is `&m[r * cols]`): a one-block function that returns one of
+                # its pointer arguments plus an offset computed from its integer arguments
+                g = self.P.fns.get(d.callee) if hasattr(self.P, 'fns') else None
+                if g is not None and len(g.order) == 1 and g.retty.strip().endswith('*'):
+                    rets = [i for i in g.insts() if i.op == 'ret' and i.ops]
+                    if len(rets) == 1:
+                        summ = g.__dict__.get('_ptr_summary')
+                        if summ is None:
+                            gr, go = PolyCtx(self.P, g).ptr(rets[0].ops[0])
+                            summ = (gr, go) if re.match(r'^arg\d+$', gr) and all(re.match(r'^arg\d+$', a) for a in go.atoms()) else False
+                            g._ptr_summary = summ
+                        if summ:
+                            gr, go = summ
+                            base_r, base_o = self.ptr(d.ops[int(gr[3:])], depth + 1)
+                            off = go
+                            for a in sorted(go.atoms()):
+                                off = off.subst(a, self.val(d.ops[int(a[3:])], depth + 1))
+                            return base_r, base_o + off
             if d.op in ('phi', 'select') and d.res in self.choice:
                 return self.ptr(self.choice[d.res], depth + 1)
             if d.op == 'phi':
